@@ -42,6 +42,32 @@ ASSUMPTIONS = ['the Python predicate unifies its arguments with each row and yie
 class Boom(Exception):
     pass
 
+# classes of the exception objects that the Python predicates raise: the engine's own exception types (engine code may catch
+# those for its own purposes), the compiler's, and the ones that common `except` clauses name
+EXC_CLASSES = ['Boom', 'YPException', 'YPSub', 'CompilerError', 'KeyError', 'AttributeError', 'TypeError', 'ValueError', 'LookupError',
+               'StopIteration', 'RuntimeError', 'GeneratorExit', 'AssertionError', 'OSError']
+_YPSUB = []
+
+def make_exc(name, i):
+    from yldprolog import engine as E, errors
+    msg = 'raised by Python predicate %d' % i
+    if name == 'Boom': return Boom(msg)
+    if name == 'YPException': return E.YPException(msg)
+    if name == 'YPSub':
+        if not _YPSUB:
+            _YPSUB.append(type('YPSub', (E.YPException,), {}))
+        return _YPSUB[0](msg)
+    if name == 'CompilerError': return errors.CompilerError.at('predicate.py', 1, 0, msg)
+    return {'KeyError': KeyError, 'AttributeError': AttributeError, 'TypeError': TypeError, 'ValueError': ValueError, 'LookupError': LookupError,
+            'StopIteration': StopIteration, 'RuntimeError': RuntimeError, 'GeneratorExit': GeneratorExit, 'AssertionError': AssertionError,
+            'OSError': OSError}[name](msg)
+
+def expected_end(spec):
+    """what the consumer must see: the object itself; a StopIteration that leaves a generator function is turned by CPython
+    (PEP 479) into a RuntimeError whose __cause__ is the object"""
+    name = spec.get('exc') or 'Boom'
+    return 'raised RuntimeError' if name == 'StopIteration' else 'raised ' + name
+
 # ------------------------------------------------------------------ fact predicates of a program
 
 def fact_preds(clauses):
@@ -162,16 +188,20 @@ def run_queries(yp, E, case, exc_obj):
             end = 'raised RecursionError'
         except BaseException as e:
             end = 'raised %s' % type(e).__name__
-            same = next((i for i, o in enumerate(exc_obj) if e is o), None)      # which predicate's exception object it is
+            same = next((i for i, o in enumerate(exc_obj) if e is o or (isinstance(o, StopIteration) and e.__cause__ is o)), None)      # which predicate's exception object it is
             # the traceback keeps the frames the exception went through alive, and with them the suspended unify
             # generators of their for loops (CPython): the consumer drops it before looking at the variables
-            e.__traceback__ = None
+            for x in [e, e.__cause__, e.__context__] + list(exc_obj):
+                if x is not None:
+                    x.__traceback__ = None
         finally:
             if g is not None and hasattr(g, 'close'):
                 try:
                     g.close()
                 except BaseException:
                     pass
+        for x in exc_obj:       # also when the exception never arrived (swallowed on the way): the harness holds the objects
+            x.__traceback__ = None
         leftover = [i for i in range(nq) if T.vars[i]._is_bound]
         leaked = sum(1 for v in list(W) if v._is_bound and id(v) not in before) if W is not None else 0
         out.append({'answers': semcheck.canon_answers(answers), 'values': values, 'count': n, 'end': end, 'same': same,
@@ -181,7 +211,7 @@ def run_queries(yp, E, case, exc_obj):
 def impl(case):
     from yldprolog import compiler, engine as E
     res = {}
-    exc_obj = [Boom('raised by Python predicate %d' % i) for i in range(len(case['native']))]
+    exc_obj = [make_exc(sp.get('exc') or 'Boom', i) for i, sp in enumerate(case['native'])]
     num = numbered(case)
     facts = fact_preds(num)
     for which in ('B', 'A'):
@@ -322,7 +352,7 @@ def compare_phase(case, ioA, ioB, mo, natives, tagmap=None):
                 continue
             if mn['err']:
                 if not a['end'].startswith('raised') or a['answers'] != mn['answers'] or a['count'] != mn['count'] or \
-                        mn['exn'][0] != 'py' or a['same'] != mn['exn'][1]:
+                        mn['exn'][0] != 'py' or a['same'] != mn['exn'][1] or a['end'] != expected_end(case['native'][mn['exn'][1]]):
                     return 'query %s: the model ends with %s after %d answers, the engine %s (object of predicate %s) after %d' % (t, mn['exn'], mn['count'], a['end'], a['same'], a['count'])
                 continue
             if a['end'] not in ('done', 'cap') or a['answers'] != mn['answers'] or (a['end'] == 'done' and a['count'] != mn['count']):
@@ -349,7 +379,7 @@ def compare_phase(case, ioA, ioB, mo, natives, tagmap=None):
                 return 'query %s: the model ends with the exception of Python predicate %d after %d answers, the engine %s after %d' % (t, mn['exn'][1], mn['count'], a['end'], a['count'])
             if a['answers'] != mn['answers'] or a['count'] != mn['count']:
                 return 'query %s: answers delivered before the exception differ from the model (%d vs %d)' % (t, a['count'], mn['count'])
-            if a['end'] != 'raised Boom' or a['same'] != mn['exn'][1]:
+            if a['same'] != mn['exn'][1] or a['end'] != expected_end(natives[mn['exn'][1] if tagmap is None else tagmap.index(mn['exn'][1])]):
                 return 'query %s: the consumer got %s (object of predicate %s), the model the object raised by predicate %d' % (t, a['end'], a['same'], mn['exn'][1])
             continue
         if a['end'] not in ('done', 'cap'):
@@ -378,7 +408,7 @@ def oracle(case, io):
         if a['end'].startswith('raised') and a['end'] != 'raised RecursionError':
             if not raising:
                 return 'query %s: the engine with Python predicates %s' % (t, a['end'])
-            if a['end'] != 'raised Boom' or a['same'] is None:
+            if a['same'] is None or a['end'] != expected_end(case['native'][a['same']]):
                 return 'query %s: the exception of the Python predicate did not reach the consumer unchanged (%s, same object: %s)' % (t, a['end'], a['same'])
         if not raising and a['end'] in ('done', 'cap') and b['end'] in ('done', 'cap'):
             if a['answers'] != b['answers'] or a['count'] != b['count']:
@@ -529,8 +559,10 @@ def gen(rng, tier):
             specs = [native_spec(rng, k[0], k[1]) for k in s]
             i = rng.randrange(len(specs))
             specs[i]['raise'] = rng.choice([0, 0, 1, 1, 2, 3])
+            specs[i]['exc'] = rng.choice(EXC_CLASSES)
             if len(specs) > 1 and rng.random() < 0.4:      # two raising predicates: which object arrives?
                 specs[(i + 1) % len(specs)]['raise'] = rng.choice([0, 1, 2])
+                specs[(i + 1) % len(specs)]['exc'] = rng.choice(EXC_CLASSES)
             cases.append({'clauses': clauses, 'queries': queries, 'dyn': dt, 'native': specs})
     return cases
 
@@ -569,6 +601,25 @@ def builtin_corpus():
             L.append({'clauses': prog, 'queries': queries, 'dyn': [],
                       'native': [{'name': 'e', 'arity': 2, 'style': style, 'yield': 'true', 'form': 'nested', 'raise': j},
                                  {'name': 'q', 'arity': 1, 'style': 'explicit', 'yield': 'mixed', 'form': 'arrays', 'raise': None}]})
+    # every exception class below every kind of caller: conjunction, cut, condition and branches of if-then-else, \+, call/N,
+    # once/1, findall/3 and meta-calls nested in each other; the consumer must get the object itself
+    rules2 = rules + [['t9', [V('X')], call('once', F('call', A('q'), V('X')))],
+                      ['t10', [V('L')], call('findall', V('X'), F('once', F('q', V('X'))), V('L'))],
+                      ['t11', [V('X')], ['and', ['not', ['not', call('q', V('_'))]], call('=', V('X'), A('yes'))]],
+                      ['t12', [V('X')], ['or', ['if', call('e', V('X'), V('_')), ['true']], call('=', V('X'), A('none'))]],
+                      ['t13', [V('X')], ['or', ['if', call('=', V('X'), A('a')), call('q', V('X'))], call('e', V('X'), V('_'))]],
+                      ['t14', [V('L')], call('findall', V('Y'), F('call', F('e', A('a')), V('Y')), V('L'))],
+                      ['t15', [V('X')], ['and', call('call', F('once', F('q', V('X')))), ['cut']]]]
+    queries2 = queries + [['t%d' % i, [V('Q0')]] for i in range(9, 16)]
+    prog2 = rules2 + q3 + e2
+    k = 0
+    for cls in EXC_CLASSES:
+        for name, ar in (('q', 1), ('e', 2)):
+            for j in (0, 1):
+                k += 1
+                L.append({'clauses': prog2, 'queries': queries2, 'dyn': dyn0 if k % 5 == 0 else [],
+                          'native': [{'name': name, 'arity': ar, 'style': ['inferred', 'explicit', 'variadic'][k % 3], 'yield': ['false', 'true', 'mixed'][k % 3],
+                                      'form': ['arrays', 'nested'][k % 2], 'raise': j, 'exc': cls}]})
     return L
 
 def nontrivial(case, io):
